@@ -353,13 +353,13 @@ def shrink(case):
 # ------------------------------------------------------------------------------------------------ run
 def run(ctx):
     rng = ctx.rng
-    lz = [gen_lanczos(rng, ctx.quick) for _ in range(ctx.n(12, 100))]
+    lz = [gen_lanczos(rng, ctx.quick) for _ in range(ctx.n(8, 100))]
     sq = [gen_slq(rng, ctx.quick) for _ in range(ctx.n(5, 40))]
     el = [gen_elbo(rng, ctx.quick, mode=md) for md in ("wide", "square", "tall")]      # fewer / as many / more data than dofs
-    el += [gen_elbo(rng, ctx.quick) for _ in range(ctx.n(1, 20))]
+    el += [gen_elbo(rng, ctx.quick) for _ in range(ctx.n(0, 20))]
     wf = [dict(sub="welford", a=[rs(dyadic(rng, -4, 4, 2)) for _ in range(rng.randint(1, 5))],
-               b=[rs(dyadic(rng, -4, 4, 2)) for _ in range(rng.randint(1, 5))]) for _ in range(ctx.n(10, 80))]
-    bt = [dict(sub="batches", n_eig=rng.randint(1, 12), n_batches=rng.randint(1, 5), skip=0) for _ in range(ctx.n(10, 80))]
+               b=[rs(dyadic(rng, -4, 4, 2)) for _ in range(rng.randint(1, 5))]) for _ in range(ctx.n(6, 80))]
+    bt = [dict(sub="batches", n_eig=rng.randint(1, 12), n_batches=rng.randint(1, 5), skip=0) for _ in range(ctx.n(6, 80))]
     for b in bt:
         b["skip"] = rng.randint(0, b["n_eig"])
     lines = [dict(op="lanczos", A=c["A"], v=c["v"], order=c["order"]) for c in lz]
